@@ -259,3 +259,204 @@ func init() {
 		fmt.Printf("== %d axis-typed expressions, %d mixes\n", n, len(mixes))
 	}
 }
+
+// ---- running bounds (monotone accumulators) ----------------------------------------------------
+
+type boundUpdate struct {
+	fi    *core.FuncInfo
+	node  *ast.AssignStmt
+	lhs   string
+	kind  string // min | max | plain
+	other ast.Expr
+}
+
+func minMaxKind(info *types.Info, call *ast.CallExpr) string {
+	switch exprStr(call.Fun) {
+	case "go2.Min", "go2.IntMin", "math.Min", "min":
+		return "min"
+	case "go2.Max", "go2.IntMax", "math.Max", "max":
+		return "max"
+	}
+	return ""
+}
+
+type boundIssue struct {
+	fi   *core.FuncInfo
+	node ast.Node
+	key  string
+	what string
+}
+
+// runningBoundIssues: for every place (variable or field path) that a function updates at least twice with
+// v = min(v, …) or v = max(v, …): (a) all such updates use the same operation, (b) no plain assignment to it follows
+// the first update inside a loop (it would forget what was accumulated), (c) the first operand is the place itself,
+// (d) the other operand belongs to the same axis as the place when both have one.
+func runningBoundIssues(p *core.Prog, pkgs []*packages.Package) (issues []boundIssue, nacc int, nupd int) {
+	for _, pk := range pkgs {
+		for _, fi := range p.Funcs(pk) {
+			info := fi.Pkg.TypesInfo
+			var ups []boundUpdate
+			ast.Inspect(fi.Decl.Body, func(n ast.Node) bool {
+				as, ok := n.(*ast.AssignStmt)
+				if !ok || len(as.Lhs) != 1 || len(as.Rhs) != 1 || as.Tok != token.ASSIGN {
+					return true
+				}
+				l := exprStr(as.Lhs[0])
+				if call, ok := ast.Unparen(as.Rhs[0]).(*ast.CallExpr); ok && len(call.Args) == 2 {
+					if k := minMaxKind(info, call); k != "" {
+						a, b := exprStr(call.Args[0]), exprStr(call.Args[1])
+						switch {
+						case a == l:
+							ups = append(ups, boundUpdate{fi, as, l, k, call.Args[1]})
+							return true
+						case b == l:
+							ups = append(ups, boundUpdate{fi, as, l, k, call.Args[0]})
+							return true
+						}
+					}
+				}
+				return true
+			})
+			byL := map[string][]boundUpdate{}
+			for _, u := range ups {
+				byL[u.lhs] = append(byL[u.lhs], u)
+			}
+			for _, l := range sortedKeys(byL) {
+				us := byL[l]
+				if len(us) < 2 {
+					continue
+				}
+				nacc++
+				nupd += len(us)
+				nmin := 0
+				for _, u := range us {
+					if u.kind == "min" {
+						nmin++
+					}
+				}
+				dir := "max"
+				if nmin*2 > len(us) {
+					dir = "min"
+				}
+				// the initial value tells the direction: +Inf / MaxInt start a minimum, -Inf / MinInt a maximum
+				initDir := ""
+				if o := core.ObjOf(info, us[0].node.Lhs[0]); o != nil {
+					for _, d := range defsOf(fi, o) {
+						if d.Rhs == nil || d.Stmt.Pos() >= us[0].node.Pos() {
+							continue
+						}
+						t := exprStr(d.Rhs)
+						switch {
+						case strings.Contains(t, "math.Inf(1)") || strings.Contains(t, "MaxInt") || (strings.Contains(t, "MaxFloat") && !strings.HasPrefix(t, "-")):
+							initDir = "min"
+						case strings.Contains(t, "math.Inf(-1)") || strings.Contains(t, "MinInt") || (strings.Contains(t, "MaxFloat") && strings.HasPrefix(t, "-")):
+							initDir = "max"
+						}
+					}
+				}
+				if initDir != "" {
+					dir = initDir
+				}
+				counts := map[string]int{}
+				add := func(n ast.Node, text, what string) {
+					k := "bound:" + fname(fi) + ":" + text
+					counts[k]++
+					if counts[k] > 1 {
+						k = fmt.Sprintf("%s#%d", k, counts[k])
+					}
+					issues = append(issues, boundIssue{fi, n, k, what})
+				}
+				la := axisOfExpr(info, us[0].node.Lhs[0])
+				for _, u := range us {
+					if u.kind != dir && (initDir != "" || !hasOppositeArm(fi, u, us)) {
+						add(u.node, exprStr(u.node.Lhs[0])+" = "+exprStr(u.node.Rhs[0]), fmt.Sprintf("%s is a running %s everywhere else in this function; this update takes the %s", l, dir, u.kind))
+					}
+					oa := axisOfExpr(info, u.other)
+					if (la == axX || la == axY) && (oa == axX || oa == axY) && la != oa {
+						add(u.node, exprStr(u.node.Lhs[0])+" = "+exprStr(u.node.Rhs[0]), fmt.Sprintf("%s accumulates the other axis: %s", l, exprStr(u.other)))
+					}
+				}
+				// plain assignments after the first update, inside the same loop as an update
+				first := us[0].node.Pos()
+				ast.Inspect(fi.Decl.Body, func(n ast.Node) bool {
+					as, ok := n.(*ast.AssignStmt)
+					if !ok || len(as.Lhs) != 1 || as.Pos() <= first || exprStr(as.Lhs[0]) != l {
+						return true
+					}
+					for _, u := range us {
+						if u.node == as {
+							return true
+						}
+					}
+					// only inside a loop that also accumulates: after the loop a reset (e.g. of an untouched ±Inf) is legitimate
+					inAccLoop := false
+					ast.Inspect(fi.Decl.Body, func(m ast.Node) bool {
+						switch m.(type) {
+						case *ast.ForStmt, *ast.RangeStmt:
+							if m.Pos() <= as.Pos() && as.End() <= m.End() {
+								for _, u := range us {
+									if m.Pos() <= u.node.Pos() && u.node.End() <= m.End() {
+										inAccLoop = true
+									}
+								}
+							}
+						}
+						return true
+					})
+					if as.Tok == token.ASSIGN && inAccLoop {
+						add(as, l+" = "+exprStr(as.Rhs[0]), l+" is overwritten inside the loop that accumulates into it: what was accumulated so far is forgotten")
+					}
+					return true
+				})
+			}
+		}
+	}
+	return
+}
+
+// hasOppositeArm: the update sits in one arm of an if/else whose other arm holds the opposite update of the same
+// place (the direction is chosen by a condition, e.g. the sign of a delta).
+func hasOppositeArm(fi *core.FuncInfo, u boundUpdate, us []boundUpdate) bool {
+	found := false
+	ast.Inspect(fi.Decl.Body, func(n ast.Node) bool {
+		is, ok := n.(*ast.IfStmt)
+		if !ok || is.Else == nil {
+			return true
+		}
+		in := func(b ast.Node, x ast.Node) bool { return b.Pos() <= x.Pos() && x.End() <= b.End() }
+		var mine, other ast.Node
+		switch {
+		case in(is.Body, u.node):
+			mine, other = is.Body, is.Else
+		case in(is.Else, u.node):
+			mine, other = is.Else, is.Body
+		default:
+			return true
+		}
+		_ = mine
+		for _, v := range us {
+			if v.kind != u.kind && in(other, v.node) {
+				found = true
+			}
+		}
+		return true
+	})
+	return found
+}
+
+func init() {
+	dumpers["bounds-acc"] = func(p *core.Prog) {
+		var pkgs []*packages.Package
+		for _, pk := range p.RepoPkgs() {
+			rel := core.RelPkg(pk.PkgPath)
+			if strings.HasPrefix(rel, "d2layouts") || rel == "d2graph" || rel == "lib/geo" || rel == "lib/shape" || rel == "d2target" || strings.HasPrefix(rel, "d2renderers/d2svg") || rel == "lib/label" {
+				pkgs = append(pkgs, pk)
+			}
+		}
+		issues, nacc, nupd := runningBoundIssues(p, pkgs)
+		for _, m := range issues {
+			fmt.Printf("%-40s %-70s %s\n", p.Pos(m.node.Pos()), strings.TrimPrefix(m.key, "bound:"), m.what)
+		}
+		fmt.Printf("== %d accumulators, %d updates, %d issues\n", nacc, nupd, len(issues))
+	}
+}
